@@ -442,6 +442,10 @@ STAGES = [
           },
           fork=True,
           rust=True,
-          timeout=180),
+          timeout=75,
+          timeout_violation=lambda case: (
+              "terminates", ("take-k-does-not-return",),
+              f"taking {case['k']} examples from a repeating stream did not "
+              f"return: {case}")),
 ]
 NEEDS_RUST_HARNESS = True
